@@ -305,6 +305,9 @@ func (s *Sim) Apply(o Option) bool {
 // (first ready thread first, successful callbacks). Afterwards every Do and every
 // Close/ForceClose must have returned.
 func (s *Sim) Drain() bool {
+	if s.Panicked {
+		return true
+	}
 	if !s.ReqC {
 		if !s.Apply(Option{Kind: "fclose"}) {
 			return false
